@@ -23,37 +23,11 @@ theorem Good.P1 {c : Cfg} (g : Good c) : 1 ≤ c.P := Nat.le_trans g.T1 g.TP
 theorem C13_invariant (c : Cfg) (g : Good c) (s : St) (h : Reach c s) : Inv c s :=
   inv_reach c g.fw g.P1 s h
 
-/-- normal end of the pass: the consumer left its loop because all workers reported a sentinel -/
-def normalEnd (s : St) : Prop := (∃ k, s.ph = .resetting k 0) ∨ s.ph = .fin 0
-
 /-- **Exactly once.** Whenever a pass ends normally — under any interleaving — the input was
 finite and the yielded indices are a permutation of `0..n-1`: one result per input, none twice. -/
 theorem C13_exactly_once (c : Cfg) (g : Good c) (s : St) (h : Reach c s) (hend : normalEnd s) :
-    ∃ n, c.n = some n ∧ s.out.Perm (List.range n) := by
-  induction h with
-  | init => rcases hend with ⟨k, hk⟩ | hk <;> simp [init] at hk
-  | @step s s' l hr hs ih =>
-    have hi := C13_invariant c g s hr
-    -- either the previous state had already ended normally with the same output, or this is `cFinish`
-    by_cases hprev : normalEnd s
-    · obtain ⟨n, hn, hp⟩ := ih hprev
-      refine ⟨n, hn, ?_⟩
-      have hout : s'.out = s.out := by
-        rcases hprev with ⟨k, hk⟩ | hk <;>
-          (cases l <;> simp [step, hk] at hs <;> (try split at hs) <;> (try split at hs) <;> (try split at hs) <;>
-            simp at hs <;> (try subst hs) <;> rfl)
-      rw [hout]; exact hp
-    · -- the only way to enter a normal end is `cFinish`
-      have hfin : l = .cFinish := by
-        rcases hend with ⟨k, hk⟩ | hk <;>
-          (cases l <;> simp only [step] at hs <;> (try split at hs) <;> (try split at hs) <;> (try split at hs) <;>
-            simp at hs <;> (try subst hs) <;> simp_all [normalEnd])
-      subst hfin
-      simp only [step] at hs
-      split at hs <;> simp at hs
-      rename_i hc; subst hs
-      obtain ⟨n, hn, hcount, _, _⟩ := finish_exact c g.T1 s hi hc.1 hc.2
-      exact ⟨n, hn, List.perm_iff_count.mpr (fun i => by rw [hcount i, List.count_range])⟩
+    ∃ n, c.n = some n ∧ s.out.Perm (List.range n) :=
+  normalEnd_perm c g.fw g.T1 g.TP s h hend
 
 /-- **No silent end on failure.** If the mapped function fails on some input `i < n`, no
 interleaving lets the pass end normally: the consumer re-raises (or is still running). -/
